@@ -27,6 +27,9 @@ def group(rng, k):
         {"k": "ins", "mn": "POP", "ops": [dict(R32, n=5)]},
         {"k": "ins", "mn": "XOR", "ops": [dict(R32, n=0), dict(R32, n=0)]},
         {"k": "ins", "mn": "CMP", "ops": [dict(R16, n=1), {"t": "i", "v": 3, "sty": "d"}]},
+        # far jumps: the offset of the pointer is 32 bits wide in both modes here (0x12345 needs it), prefixed with 66h in 16-bit code
+        {"k": "far", "mn": "JMP", "seg": 8, "off": 0x12345, "kw": "", "sty": "h"},
+        {"k": "far", "mn": "JMP", "seg": 16, "off": 0x28001b, "kw": "DWORD", "sty": "h"},
     ]
     return [json.loads(json.dumps(rng.choice(pool))) for _ in range(k)]
 
